@@ -18,7 +18,10 @@ Definition num_cast (bits : Z) (signed : bool) (v : Z) : option Z := if fits bit
 (* checked_mul / mul_checked on a signed native of the given width *)
 Definition checked_mul (bits : Z) (a b : Z) : option Z := let r := a * b in if fits bits true r then Some r else None.
 (* Rust `as iN` / wrapping arithmetic: two's complement wrap *)
-Definition wrap_signed (bits : Z) (v : Z) : Z := (v + 2 ^ (bits - 1)) mod 2 ^ bits - 2 ^ (bits - 1).
+Definition wrap_signed (bits : Z) (v : Z) : Z :=
+  let h := 2 ^ (bits - 1) in
+  if (- h <=? v) && (v <? h) then v            (* already in range (also keeps the extracted model fast) *)
+  else (v + h) mod 2 ^ bits - h.
 
 Definition is_some {A} (o : option A) : bool := match o with Some _ => true | None => false end.
 Definition obind {A B} (o : option A) (f : A -> option B) : option B := match o with Some a => f a | None => None end.
